@@ -648,11 +648,13 @@ impl<T> AutoGrowCircularQueue<T> {
     /// Returns `ZiporaError::MemoryError` if allocation fails
     pub fn reserve(&mut self, additional: usize) -> Result<()> {
         let required = self.len + additional;
-        if required <= self.capacity {
+        // One slot always stays free to tell a full ring from an empty one (see push_back):
+        // a ring filled to `capacity` has head == tail and clone/clear/drop treat it as empty
+        if required < self.capacity {
             return Ok(());
         }
 
-        let new_capacity = Self::ensure_power_of_two(required);
+        let new_capacity = Self::ensure_power_of_two(required + 1);
         self.grow_to(new_capacity)
     }
 
